@@ -878,6 +878,9 @@ func (x *Exec) evalCall(e *CE, env *Env) TV {
 	case "tagof": // the dynamic type of an interface value as a number (0: nil interface)
 		a := arg(0).V.(IfaceV)
 		return TV{Sc{a.Tag}, intT}
+	case "valof": // the identity of the value an interface holds (with tagof: which interface value it is)
+		a := arg(0).V.(IfaceV)
+		return TV{Sc{a.Val}, intT}
 	case "tagid": // the number of a named type: tagid(T) == tagof(x) iff typeis(x, T)
 		if txt := typeTextOf(e.Args[0]); txt == "bytes" { // (the contract grammar has no slice type syntax)
 			return TV{Sc{x.typeID(types.NewSlice(types.Typ[types.Uint8]))}, intT}
